@@ -352,23 +352,107 @@ def rule_constraint_gradients(F, R):
 
 
 def rule_state_constraints(F, R):
+    """R-C05-7: solver_state_t::update_constraints files the value of every constraint under its own kind - a write to m_ceq / m_cineq is
+    control-dependent on is_equality(<the loop's constraint>) being true / false -, in the slot given by a per-kind counter (0 before the
+    loop, incremented exactly in that kind's branch), with the value vgrad(constraint, m_x, .) of that very constraint, and the Lagrangian
+    gradient weights the same gradient with the multiplier of the same kind and slot"""
     f = F.one("nano::solver_state_t::update_constraints", "src/solver/state.cpp")
     rf = [x for x in f.nodes() if x["k"] == "rangefor"]
-    ok = len(rf) == 1 and pp(rf[0]["c"][1]) == "m_function.constraints()"
-    asg = {kalg.designator(assignment(x)[0]): pp(assignment(x)[1]) for x in f.nodes() if assignment(x) and assignment(x)[2] == "="}
-    ok = ok and asg.get("m_ceq(eq)", "").startswith("vgrad(constraint, m_x") and asg.get("m_cineq(ineq)", "").startswith("vgrad(constraint, m_x")
-    ifs = [x for x in f.nodes() if x["k"] == "if"]
-    ok = ok and len(ifs) == 1 and pp(ifs[0]["c"][ifs[0]["r"].index("cond")]) == "is_equality(constraint)"
-    if ok:
-        then, els = ifs[0]["c"][ifs[0]["r"].index("then")], ifs[0]["c"][ifs[0]["r"].index("else")]
-        ok = [pp(incdec(x)[0]) for x in walk(then) if incdec(x)] == ["eq"] and [pp(incdec(x)[0]) for x in walk(els) if incdec(x)] == ["ineq"]
-        ok = ok and "m_ceq(eq)" in " ".join(kalg.designator(assignment(x)[0]) for x in walk(then) if assignment(x)) and \
-            "m_cineq(ineq)" in " ".join(kalg.designator(assignment(x)[0]) for x in walk(els) if assignment(x))
-    R.check(ok, "R-C05-7", "state constraint values", f.loc(), "stored constraint values are recomputed at m_x, one slot per kind in declaration order",
-            "update_constraints no longer stores the value of constraint k of each kind in slot k: %s" % asg)
-    # Lagrangian gradient uses the matching multiplier
-    lg = [pp(assignment(x)[1]) for x in f.nodes() if assignment(x) and assignment(x)[2] == "+=" and kalg.designator(assignment(x)[0]) == "m_lgx"]
-    R.check(lg == ["(m_meq(eq) * cgrad)", "(m_mineq(ineq) * cgrad)"], "R-C05-7", "lagrangian gradient pairing", f.loc(), "constraint k of a kind is weighted by multiplier k of that kind", "Lagrangian gradient terms are %s" % lg)
+    if len(rf) != 1 or pp(rf[0]["c"][1]) != "m_function.constraints()":
+        R.bad("R-C05-7", "state constraint values", f.loc(), "update_constraints no longer walks m_function->constraints() once")
+        return
+    loop = rf[0]
+    lv = [v for v in walk(loop["c"][0])] if loop["c"][0] is not None else []
+    lvar = next((v for v in walk(loop) if v["k"] == "var" and v["n"] == "constraint"), None) or next((v for v in lv if v["k"] == "var"), None)
+    if lvar is None:
+        R.incomplete("R-C05-7", "state constraint values", f.loc(), "loop variable not found")
+        return
+
+    def kind_of(x):
+        """+1 / -1 when x is executed only if is_equality(loop constraint) is true / false; 0 when it is not control-dependent on that test"""
+        k = 0
+        child = x
+        for a_ in f.ancestors(x):
+            if a_ is loop:
+                break
+            if a_["k"] == "if":
+                cnd = skip(a_["c"][a_["r"].index("cond")])
+                neg = False
+                while cnd["k"] == "un" and cnd.get("op") == "!":
+                    neg, cnd = not neg, skip(cnd["c"][0])
+                if cnd["k"] == "call" and callee(cnd).endswith("is_equality") and ref_decl(args(cnd)[0]) == lvar["d"]:
+                    then = a_["c"][a_["r"].index("then")]
+                    in_then = any(z is child for z in walk(then))
+                    k = (1 if in_then else -1) * (-1 if neg else 1)
+            child = a_
+        return k
+
+    def value_ok(n, depth=0):
+        n = skip(n)
+        if n["k"] == "call" and callee(n).split("::")[-1] == "vgrad" and len(args(n)) >= 2 and ref_decl(args(n)[0]) == lvar["d"] and pp(args(n)[1]) == "m_x":
+            return True
+        if n["k"] == "ref" and depth < 3:
+            v = [q for q in walk(loop) if q["k"] == "var" and q.get("d") == n.get("d") and q.get("c")]
+            return len(v) == 1 and value_ok(v[0]["c"][0], depth + 1)
+        return False
+    stores = {}
+    for x in walk(loop):
+        a = assignment(x)
+        if a and a[2] == "=":
+            l = skip(a[0])
+            if l["k"] == "call" and l.get("op") == "()" and len(l["c"]) == 2 and skip(l["c"][0])["k"] == "mem" and skip(l["c"][0])["n"] in ("m_ceq", "m_cineq"):
+                stores.setdefault(skip(l["c"][0])["n"], []).append((x, l["c"][1], a[1]))
+    ok, why = True, ""
+    counters = {}
+    for mem, want in (("m_ceq", 1), ("m_cineq", -1)):
+        st = stores.get(mem, [])
+        if len(st) != 1:
+            ok, why = False, "%s is stored %d times per constraint" % (mem, len(st))
+            break
+        x, idx, val = st[0]
+        if kind_of(x) != want:
+            ok, why = False, "the store into %s is not guarded by is_equality(constraint) being %s: constraints are filed by position, not by kind - an inequality registered before an " \
+                "equality lands in the other kind's slot (and is weighted with the other kind's multiplier)" % (mem, "true" if want == 1 else "false")
+            break
+        if not value_ok(val):
+            ok, why = False, "the value stored into %s is not vgrad(constraint, m_x, ..) of the loop's constraint: %s" % (mem, pp(val)[:60])
+            break
+        ix = skip(idx)
+        while ix["k"] == "cast" and ix.get("c"):
+            ix = skip(ix["c"][0])
+        d_ = ix.get("d") if ix["k"] == "ref" else None
+        iv = [v for v in f.nodes() if v["k"] == "var" and v.get("d") == d_] if d_ is not None else []
+        incs = [y for y in walk(loop) if incdec(y) and ref_decl(incdec(y)[0]) == d_]
+        if not (len(iv) == 1 and iv[0].get("c") and literal_value(iv[0]["c"][0]) == 0 and not any(z is iv[0] for z in walk(loop))):
+            ok, why = False, "the slot of %s is not a counter initialised with 0 before the loop: %s" % (mem, pp(idx)[:40])
+            break
+        if not (len(incs) == 1 and kind_of(incs[0]) == want and skip(incs[0])["k"] == "un" and skip(incs[0]).get("op") == "++"):
+            ok, why = False, "the counter of %s is not incremented exactly once in its own kind's branch" % mem
+            break
+        counters[mem] = d_
+    if ok and counters["m_ceq"] == counters["m_cineq"]:
+        ok, why = False, "both kinds share one counter"
+    R.check(ok, "R-C05-7", "state constraint values", f.loc(), "stored constraint values are recomputed at m_x, filed by kind (is_equality), one slot per kind in declaration order",
+            "update_constraints: " + why)
+    # Lagrangian gradient uses the matching multiplier: m_lgx += <multiplier of the same kind>(<same counter>) * <the gradient vgrad just wrote>
+    lg = [(x, assignment(x)[1]) for x in walk(loop) if assignment(x) and assignment(x)[2] == "+=" and kalg.designator(assignment(x)[0]) == "m_lgx"]
+    okl, whyl = len(lg) == 2, "expected one Lagrangian gradient term per kind, found %d" % len(lg)
+    if okl and ok:
+        for x, rhs in lg:
+            k = kind_of(x)
+            mem = {1: "m_meq", -1: "m_mineq"}.get(k)
+            cnt = counters["m_ceq"] if k == 1 else counters["m_cineq"]
+            r_ = skip(rhs)
+            parts = [skip(c_) for c_ in r_.get("c", ())] if r_["k"] in ("bin", "call") and r_.get("op") == "*" else []
+            mult = [p_ for p_ in parts if p_["k"] == "call" and p_.get("op") == "()" and len(p_["c"]) == 2 and skip(p_["c"][0])["k"] == "mem"]
+            grad = [p_ for p_ in parts if p_["k"] == "ref"]
+            gname = next((pp(args(c_)[2]) for c_ in walk(loop) if c_["k"] == "call" and callee(c_).split("::")[-1] == "vgrad" and len(args(c_)) >= 3 and ref_decl(args(c_)[0]) == lvar["d"]), None)
+            if mem is None or len(mult) != 1 or skip(mult[0]["c"][0])["n"] != mem or next((y.get("d") for y in walk(mult[0]["c"][1]) if y["k"] == "ref"), None) != cnt or len(grad) != 1 or pp(grad[0]) != gname:
+                okl, whyl = False, "the %s branch adds `%s`" % ({1: "equality", -1: "inequality"}.get(k, "unguarded"), pp(rhs)[:60])
+                break
+    elif okl:
+        okl, whyl = False, "the constraint values are not filed by kind (see above)"
+    R.check(okl, "R-C05-7", "lagrangian gradient pairing", f.loc(), "constraint k of a kind is weighted by multiplier k of that kind", "Lagrangian gradient: " + whyl)
     k1 = F.one("nano::solver_state_t::kkt_optimality_test1", "src/solver/state.cpp")
     k2 = F.one("nano::solver_state_t::kkt_optimality_test2", "src/solver/state.cpp")
     r1 = pp([x for x in k1.nodes() if x["k"] == "return"][0]["c"][0])
